@@ -490,9 +490,11 @@ class C18(core.Check):
         "decided exactly per case by the request c18.clear) the model returns the predicted numbering for every input "
         "numbering, triangle order and choice of diagonals (T_C18_clear_view, T_C18_canonicalises), it is one of the 48 "
         "relabellings of the input and right-handed; guards/constants/recipes of the source are regenerated with ast and "
-        "tied to the model (T_C18_tie_*). Only validator/oracle-checked: that the returned numbering satisfies Canonical "
-        "as stated on the side area vectors (the theorem is stated on the hull triangles; the two coincide for planar "
-        "sides), that views without a clear winner give one of the 48 relabellings, and that scipy's hull is a "
+        "tied to the model (T_C18_tie_*); round 6b: for planar-sided right-handed blocks a clear view implies Canonical "
+        "(T_C18_clear_view_canonical), vertex objects at one position (merged patches) are returned together "
+        "(T_C18_duplicates_together), get_common_point rejects with DegenerateGeometryError only (repair 70219c0). Only "
+        "validator/oracle-checked: that the returned numbering of a block with warped sides satisfies Canonical "
+        "as stated on the side area vectors (the theorem is stated on the hull triangles), that views without a clear winner give one of the 48 relabellings, and that scipy's hull is a "
         "triangulation of the six sides (hypothesis of the theorem, decided per case)."
     )
 
@@ -505,6 +507,12 @@ class C18(core.Check):
             queries = []
             for _ in range(10):
                 queries.append(self._query(rng))
+            if spec.get("merged"):
+                # merged patches: every vertex of the common face exists twice (master copy, slave copy).  'Exact' there
+                # means both copies (T_C18_duplicates_together): aim one default-radius sphere and one plane at such a pair
+                zero = [0.0, 0.0, 0.0]
+                queries.append({"type": "sphere", "at": rng.randrange(1000), "off": zero, "radius": None, "dup": True})
+                queries.append({"type": "plane", "at": rng.randrange(1000), "off": zero, "normal": [1.0, 0.0, 0.0], "dup": True})
             moved = [[rng.randrange(1000), [rng.choice([-1, 1]) * _dy(rng, 0.25, 0.75) for _ in range(3)]] for _ in range(2)]
             cases.append(
                 {"kind": "find", "mesh": spec, "queries": queries, "moved": moved, "reassemble": True, "delete": rng.randrange(1000)}
@@ -640,7 +648,13 @@ class C18(core.Check):
               if "free" in q:
                   centre = np.array(q["free"], dtype=float)
               else:
-                  centre = verts[q["at"] % n] + np.array(q["off"], dtype=float)
+                  at = q["at"] % n
+                  if q.get("dup"):  # a vertex whose position is shared by another vertex object (if there is one now)
+                      dups = [i for i in range(n) if any(j != i and np.array_equal(verts[i], verts[j]) for j in range(n))]
+                      if dups:
+                          at = dups[q["at"] % len(dups)]
+                          res["twins"] = [j for j in range(n) if np.array_equal(verts[at], verts[j])]
+                  centre = verts[at] + np.array(q["off"], dtype=float)
               res["centre"] = centre.tolist()
               if q["type"] == "sphere":
                   rad = q["radius"]
@@ -1070,6 +1084,17 @@ class C18(core.Check):
                     }
                 )
                 continue
+            twins = q.get("twins") or []
+            if len(twins) > 1 and 0 < len(set(twins) & set(q["found"])) < len(twins):
+                # merged patches: the copies of one position are different vertex objects; exact = all of them or none
+                out.append(
+                    {
+                        "site": f"GeometricFinder.{fn}:duplicate-copy-missed{suffix}",
+                        "what": f"{q}: of the vertex objects {twins} at one position only {sorted(set(twins) & set(q['found']))} are returned",
+                        "observed": q["found"],
+                        "expected": exp,
+                    }
+                )
             missed = sorted(set(exp) - set(q["found"]))
             extra = sorted(set(q["found"]) - set(exp))
             if missed:
@@ -1155,7 +1180,17 @@ class C18(core.Check):
         gap = min(r["gap"] for r in results)
         for r in results:
             if "out" not in r:
-                if r["err"] not in ("DegenerateGeometryError", "IndexError"):
+                if r["err"] == "IndexError":  # the documented rejection is DegenerateGeometryError (repair 70219c0)
+                    out.append(
+                        {
+                            "site": site + "bare-IndexError-instead-of-DegenerateGeometryError",
+                            "what": f"numbering {r['num']}: a view the re-orienter cannot sort is rejected with {r['err']}",
+                            "observed": r["err"],
+                            "expected": "DegenerateGeometryError",
+                        }
+                    )
+                    break
+                if r["err"] != "DegenerateGeometryError":
                     out.append({"site": site + "unexpected-exception", "what": f"numbering {r['num']}: {r['err']}"})
                     break
                 if clear:
